@@ -3,6 +3,7 @@
   the target backend, under which path, with which key, and what the command prints.
 -/
 import NutsModel.C03.Export
+import NutsModel.C03.Pem
 import NutsModel.Facts.C03
 import NutsProofs.Props.C03
 import NutsProofs.Props.C03Api
@@ -249,6 +250,86 @@ theorem fs2vault_new_entries_confined (cls hex : Ranges) (hshape : kidClasses C0
       exact ⟨f, hf, c, hc⟩
     · simp only [hc] at hg
       cases hg
+
+/-! ## the PEM codec (crypto/util/pem.go) -/
+
+/-- the block-type switches as the source has them: three private block types (PKCS#8 goes through the signer type
+    switch), NO default clause in PemToPrivateKey, two public block types with `ErrWrongPublicKey` as default -/
+theorem fact_pem_switch_tables :
+    C03.pemPrivateCases = [("RSA PRIVATE KEY", "direct"), ("EC PRIVATE KEY", "direct"), ("PRIVATE KEY", "typeswitch")] ∧
+    C03.pemPrivateDefault = "none" ∧
+    C03.pemPublicCases = ["PUBLIC KEY", "RSA PUBLIC KEY"] ∧
+    C03.pemPublicDefault = "return:return nil, ErrWrongPublicKey" ∧
+    C03.pemNilBlockGuards = ["private:if block == nil -> assign:err = ErrWrongPrivateKey; return:return",
+                             "public:if block == nil -> return:return nil, ErrWrongPublicKey"] := by decide
+
+/-- **a signer comes only out of a private-key block**: for every PEM input and every parser answer, a non-nil result of
+    `PemToPrivateKey` is the parser's value for a block of one of the three private types, and a PKCS#8 value is handed out
+    only with one of the key store's signer types (`fact_store_key_types_are_signers`: the types the jwk-header rule refuses) -/
+theorem pem_signer_only_from_private_block (block : Option String) (p : Parsed) (ty : String)
+    (h : pemToPrivateKey C03.pemPrivateCases C03.pemPrivateKeyTypes block p = .key ty) :
+    p = .ok ty ∧ ∃ t, block = some t ∧ t ∈ C03.pemPrivateCases.map (·.1) ∧
+      (t = "PRIVATE KEY" → ty ∈ C03.pemPrivateKeyTypes) := by
+  unfold pemToPrivateKey at h
+  cases block with
+  | none => cases h
+  | some t =>
+    simp only [] at h
+    cases hf : C03.pemPrivateCases.find? (isCase t) with
+    | none => rw [hf] at h; cases h
+    | some c =>
+      obtain ⟨a, how⟩ := c
+      rw [hf] at h
+      simp only [] at h
+      have hm := List.mem_of_find?_eq_some hf
+      have ht : a = t := by
+        have := List.find?_some hf
+        simpa [isCase] using this
+      subst ht
+      cases p with
+      | err => cases h
+      | ok ty' =>
+        simp only [] at h
+        have hty : ty' = ty ∧ (how = "direct" ∨ ty' ∈ C03.pemPrivateKeyTypes) := by
+          by_cases hd : (how == "direct") = true
+          · simp only [hd, if_true] at h
+            exact ⟨by cases h; rfl, .inl (by simpa using hd)⟩
+          · simp only [hd] at h
+            by_cases hc : C03.pemPrivateKeyTypes.contains ty' = true
+            · simp only [hc, if_true] at h
+              exact ⟨by cases h; rfl, .inr (by simpa using hc)⟩
+            · simp only [hc] at h; cases h
+        obtain ⟨rfl, hor⟩ := hty
+        refine ⟨rfl, a, rfl, List.mem_map.mpr ⟨(a, how), hm, rfl⟩, ?_⟩
+        intro hpk
+        subst hpk
+        have hfix : C03.pemPrivateCases.find? (isCase "PRIVATE KEY") = some ("PRIVATE KEY", "typeswitch") := by decide
+        rw [hfix] at hf
+        cases hf
+        rcases hor with hbad | hok
+        · exact absurd hbad (by decide)
+        · exact hok
+
+/-- the public decoder never parses a private-key block: `PemToPublicKey` answers ErrWrongPublicKey for each of them -/
+theorem pem_public_decoder_refuses_private_blocks (t : String) (ht : t ∈ C03.pemPrivateCases.map (·.1)) (p : Parsed) :
+    pemToPublicKey C03.pemPublicCases (some t) p = .wrongKey := by
+  have hall : ∀ t ∈ C03.pemPrivateCases.map (·.1), C03.pemPublicCases.contains t = false := by decide
+  unfold pemToPublicKey
+  simp only [hall t ht]
+  rfl
+
+/-- limit of the code that exists (mirrored, not a key-material path): a block of any other type — a PUBLIC KEY, a
+    certificate — makes `PemToPrivateKey` return (nil, nil): no signer and NO error; likewise a PKCS#8 key of a non-signer type -/
+theorem pem_other_block_is_nil_without_error :
+    (∀ t ∈ C03.pemPublicCases, ∀ p, pemToPrivateKey C03.pemPrivateCases C03.pemPrivateKeyTypes (some t) p = .nilNil) ∧
+    pemToPrivateKey C03.pemPrivateCases C03.pemPrivateKeyTypes (some "PRIVATE KEY") (.ok "*ecdh.PrivateKey") = .nilNil := by
+  refine ⟨?_, by decide⟩
+  intro t ht p
+  have hall : ∀ t ∈ C03.pemPublicCases, C03.pemPrivateCases.find? (isCase t) = none := by decide
+  simp [pemToPrivateKey, hall t ht]
+
+example : pemToPrivateKey C03.pemPrivateCases C03.pemPrivateKeyTypes (some "PRIVATE KEY") (.ok "*ecdsa.PrivateKey") = .key "*ecdsa.PrivateKey" := by decide
+example : "PRIVATE KEY" ∈ C03.pemPrivateCases.map (·.1) := by decide
 
 /-! ## non-vacuity -/
 
